@@ -429,6 +429,7 @@ pub fn proc_main(mode: &str, arg: &str) -> i32 {
     std::io::Read::read_to_string(&mut std::io::stdin(), &mut txt).expect("stdin");
     let spec: Spec = serde_json::from_str(&txt).expect("spec");
     crate::gens::set_call_generic(spec.generic);
+    crate::gens::set_place(spec.place);
     if mode == "alone" {
         let i: usize = arg.parse().expect("index");
         println!("{}", fmt_results(&[run_alone(&spec, i)]));
